@@ -357,8 +357,17 @@ fn apply_real(arr: &mut Arr2D<i64>, op: &Op) -> Kind {
                 *arr = m;
             }
             Op::Clone => {
-                let c = arr.clone();
-                *arr = c;
+                // the whole Clone protocol, alternately: `clone()` / `clone_from` into an existing LARGER array (the
+                // same grid either way; the second object may keep the larger buffer: another object history for
+                // the operations that follow)
+                if (arr.height + arr.width) % 2 == 0 {
+                    let c = arr.clone();
+                    *arr = c;
+                } else {
+                    let mut d = Arr2D::full(-7i64, arr.height + 1, arr.width + 2);
+                    d.clone_from(arr);
+                    *arr = d;
+                }
             }
             Op::Convert(0) => {
                 let c: Arr2D<i64> = Arr2D::try_from(&*arr)?;
@@ -697,26 +706,197 @@ fn observe(arr: &Arr2D<i64>, g: &OGrid, ck: &mut Check, heavy: bool) -> String {
     s
 }
 
-/// the layout of the documentation example for already formatted items (ASCII)
-fn text_of(h: usize, w: usize, items: &[Vec<String>]) -> String {
+/// the layout of the documentation example for already formatted items: every column right-aligned to the width
+/// of its widest item, the padding counted in CHARACTERS (what `{:>width$}` does for text); `width_of` says how
+/// the widest item of a column is measured
+fn text_of_by(h: usize, w: usize, items: &[Vec<String>], width_of: fn(&str) -> usize) -> String {
     if h == 0 || w == 0 {
         return "[]\n".into();
     }
-    let widths: Vec<usize> = (0..w).map(|c| (0..h).map(|r| items[r][c].chars().count()).max().unwrap()).collect();
+    let widths: Vec<usize> = (0..w).map(|c| (0..h).map(|r| width_of(&items[r][c])).max().unwrap()).collect();
     let mut s = String::new();
     for r in 0..h {
         s.push_str(if r == 0 { "[[ " } else { " [ " });
-        let row: Vec<String> = (0..w).map(|c| format!("{}{}", " ".repeat(widths[c] - items[r][c].chars().count()), items[r][c])).collect();
+        let row: Vec<String> = (0..w).map(|c| format!("{}{}", " ".repeat(widths[c].saturating_sub(items[r][c].chars().count())), items[r][c])).collect();
         s.push_str(&row.join(", "));
         s.push_str(if r + 1 == h { " ]]" } else { " ]\n" });
     }
     s
 }
+fn text_of(h: usize, w: usize, items: &[Vec<String>]) -> String {
+    text_of_by(h, w, items, |t| t.chars().count())
+}
+
+/// Item texts whose byte length differs from their character count are laid out by the pinned tree in columns as
+/// wide as the widest item counted in BYTES (`format!("{}", item).len()`), padded in characters: still a rectangle
+/// with aligned separators, only wider than the widest item.  The layout of the model (`SV.C12.layout`: the widest
+/// item counted in characters) is the first reading, this one the second; nothing else is a grid layout.  Set to
+/// `false` to demand the character-counted width alone.  For ASCII items the two readings are the same text.
+const BYTE_COUNTED_WIDTH_ACCEPTED: bool = false;
+
+fn layout_matches(d: Option<&str>, h: usize, w: usize, items: &[Vec<String>]) -> bool {
+    match d {
+        None => false,
+        Some(d) => d == text_of(h, w, items) || (BYTE_COUNTED_WIDTH_ACCEPTED && d == text_of_by(h, w, items, |t| t.len())),
+    }
+}
+
+/// item texts of 0..4 characters with 1-, 2-, 3- and 4-byte characters (a combining mark too): the number of bytes
+/// beyond the number of characters is 0, 1, 2, 3 or 4 and differs inside most columns
+const TXT: [&str; 16] = ["a", "é", "€", "𝄞", "", "ab", "µm", "±1", "日本", "→", "x\u{304}", "ß", "ÅÅÅ", "😀!", "0", "-€€"];
+const CHARS: [char; 8] = ['a', 'é', '€', '𝄞', '0', 'µ', '→', '😀'];
+const UNITS: [&str; 4] = ["°", "", "µm", " €"];
+
+/// An array of text-like items (`String`, `&str`, `char`) against the nested vector of the same items: rows, both
+/// index forms, max / min, equality in both directions (also against a vector with one item replaced by `other`),
+/// and the text layout.
+fn text_array_checks<T>(m: &Arr2D<T>, want: &[Vec<T>], h: usize, w: usize, other: T, what: &str, ck: &mut Check)
+where
+    T: Clone + Ord + std::fmt::Display + std::fmt::Debug,
+{
+    let want_v: Vec<Vec<T>> = want.to_vec();
+    let rows_ok = catch(|| m.rows().map(|r| r.to_vec()).collect::<Vec<_>>() == want_v) == Some(true);
+    ck.that(m.shape() == (h, w) && m.size() == h * w && rows_ok, || format!("{what}: shape {:?} / rows differ from the grid of the same items {want_v:?}", m.shape()));
+    let cells_ok = (0..h.min(CAP)).all(|r| (0..w.min(CAP)).all(|c| catch(|| m[(r, c)] == want[r][c] && m[r][c] == want[r][c]) == Some(true)));
+    ck.that(cells_ok, || format!("{what}: an item differs through an index form"));
+    let (wmx, wmn) = (want.iter().flatten().max().cloned(), want.iter().flatten().min().cloned());
+    let (mx, mn) = (catch(|| m.max()), catch(|| m.min()));
+    ck.that(mx == Some(wmx.clone()) && mn == Some(wmn.clone()), || format!("{what}: max {mx:?} min {mn:?}, grid {wmx:?} {wmn:?}"));
+    let q = (catch(|| *m == want_v), catch(|| want_v == *m));
+    ck.that(q == (Some(true), Some(true)), || format!("{what} == its nested vector: {q:?}"));
+    if h * w > 0 {
+        let (r, c) = ((h - 1) / 2, w - 1);
+        if want[r][c] != other {
+            let mut o = want_v.clone();
+            o[r][c] = other;
+            let q = (catch(|| *m == o), catch(|| o == *m));
+            ck.that(q == (Some(false), Some(false)), || format!("{what} == a nested vector with another item at ({r},{c}): {q:?}; items {want_v:?}"));
+        }
+    }
+    let items: Vec<Vec<String>> = want.iter().map(|r| r.iter().map(|x| x.to_string()).collect()).collect();
+    let d = catch(|| format!("{m}"));
+    ck.that(layout_matches(d.as_deref(), h, w, &items), || {
+        format!(
+            "Display of {what} {d:?}: the items {items:?} laid out as a grid (every column right-aligned to its widest item, padding counted in characters) are {:?}{}",
+            text_of(h, w, &items),
+            if BYTE_COUNTED_WIDTH_ACCEPTED { format!(" (or, the widest item measured in bytes, {:?})", text_of_by(h, w, &items, |t| t.len())) } else { String::new() }
+        )
+    });
+    ck.that(catch(|| m.clone() == *m) == Some(true), || format!("{what}: clone() differs from the original"));
+}
+
+/// H. NON-ASCII CONTENT: the array mapped to `&str`, `String` and `char` items with 2-, 3- and 4-byte characters (the
+/// text depends on the value, for `String` also on the position), built through `map`, through writes with both
+/// index forms and `rows_mut`, and through the nested / flat constructors; transposed and reshaped; all judged
+/// against the nested vector of the same items.  One of the four variants per call, chosen by the contents.
+fn non_ascii_checks(arr: &Arr2D<i64>, g: &OGrid, ck: &mut Check) {
+    let (h, w) = (g.h, g.w);
+    let t = &g.rows;
+    let key = |x: i64| x.rem_euclid(16) as usize;
+    let pick = t.iter().flatten().fold(h + 3 * w, |a, x| a.wrapping_mul(31).wrapping_add(x.rem_euclid(97) as usize));
+    let all = false; // one variant per observation (chosen by the contents): every request observes several states
+    let tr = |rows: &Vec<Vec<&'static str>>| -> Vec<Vec<&'static str>> { (0..w).map(|c| (0..h).map(|r| rows[r][c]).collect()).collect() };
+    if all || pick % 4 == 0 {
+        // &'static str through map; its copying transpose
+        match catch(|| arr.map(|x| TXT[key(*x)])) {
+            None => ck.that(false, || "map to &str panicked".into()),
+            Some(m) => {
+                let want: Vec<Vec<&'static str>> = t.iter().map(|r| r.iter().map(|x| TXT[key(*x)]).collect()).collect();
+                text_array_checks(&m, &want, h, w, "ß", "the array mapped to &str items (2-, 3-, 4-byte characters)", ck);
+                match catch(|| m.transpose()) {
+                    None => ck.that(false, || "transpose of the &str array panicked".into()),
+                    Some(mt) => text_array_checks(&mt, &tr(&want), w, h, "ß", "the transposed &str array", ck),
+                }
+            }
+        }
+    }
+    if all || pick % 4 == 1 {
+        // String: a number with a unit sign
+        let f = |x: &i64| format!("{x}{}", UNITS[x.rem_euclid(4) as usize]);
+        match catch(|| arr.map(f)) {
+            None => ck.that(false, || "map to String panicked".into()),
+            Some(mut m) => {
+                let want: Vec<Vec<String>> = t.iter().map(|r| r.iter().map(f).collect()).collect();
+                text_array_checks(&m, &want, h, w, "1°".to_string(), "the array mapped to String items with a unit sign", ck);
+                if h * w > 0 {
+                    // the same items under another shape
+                    let nh = if h > 1 { 1 } else { w };
+                    let fl: Vec<String> = want.iter().flatten().cloned().collect();
+                    let nw = h * w / nh;
+                    let r = catch(|| m.reshape(nh));
+                    ck.that(matches!(r, Some(Ok(()))), || format!("String array: reshape({nh}) of a {h}x{w} array fails"));
+                    let want2: Vec<Vec<String>> = (0..nh).map(|r| fl[r * nw..(r + 1) * nw].to_vec()).collect();
+                    text_array_checks(&m, &want2, nh, nw, "1°".to_string(), "the reshaped String array", ck);
+                }
+            }
+        }
+    }
+    if all || pick % 4 == 2 {
+        // char through map; transposed
+        let f = |x: &i64| CHARS[x.rem_euclid(8) as usize];
+        match catch(|| arr.map(f)) {
+            None => ck.that(false, || "map to char panicked".into()),
+            Some(m) => {
+                let want: Vec<Vec<char>> = t.iter().map(|r| r.iter().map(f).collect()).collect();
+                text_array_checks(&m, &want, h, w, 'ß', "the array mapped to char items (1- to 4-byte characters)", ck);
+                match catch(|| m.transpose()) {
+                    None => ck.that(false, || "transpose of the char array panicked".into()),
+                    Some(mt) => {
+                        let wt: Vec<Vec<char>> = (0..w).map(|c| (0..h).map(|r| want[r][c]).collect()).collect();
+                        text_array_checks(&mt, &wt, w, h, 'ß', "the transposed char array", ck)
+                    }
+                }
+            }
+        }
+    }
+    if all || pick % 4 == 3 {
+        // String, the text depends on the position too: written through both index forms / rows_mut, and the same
+        // items through the nested and the flat constructors
+        let item = |r: usize, c: usize| format!("{}{}", TXT[(key(t[r][c]) + 5 * r + 3 * c) % 16], t[r][c].rem_euclid(10));
+        let want: Vec<Vec<String>> = (0..h).map(|r| (0..w).map(|c| item(r, c)).collect()).collect();
+        let written = catch(|| {
+            let mut m = arr.map(|_| String::new());
+            for r in 0..h {
+                for c in 0..w {
+                    if (r + c) % 2 == 0 { m[(r, c)] = item(r, c) } else { m[r][c] = item(r, c) }
+                }
+            }
+            if h > 0 && w > 0 {
+                for (r, row) in m.rows_mut().enumerate() {
+                    row[w - 1] = item(r, w - 1);
+                }
+            }
+            m
+        });
+        match written {
+            None => ck.that(false, || "writing String items through the index forms panicked".into()),
+            Some(m) => text_array_checks(&m, &want, h, w, "é".to_string(), "the String array written through both index forms", ck),
+        }
+        if h > 0 {
+            match catch(|| Arr2D::<String>::try_from(want.clone())) {
+                Some(Ok(m)) => text_array_checks(&m, &want, h, w, "é".to_string(), "the String array from a nested vector", ck),
+                other => ck.that(false, || format!("TryFrom<Vec<Vec<String>>> fails on rectangular rows: {other:?}")),
+            }
+        }
+        if h * w > 0 {
+            let fl: Vec<String> = want.iter().flatten().cloned().collect();
+            let given = h * w / 2;
+            match catch(|| Arr2D::from_flat(&fl[..given], "€".to_string(), h, w)) {
+                Some(Ok(m)) => {
+                    let wp: Vec<Vec<String>> = (0..h).map(|r| (0..w).map(|c| if r * w + c < given { fl[r * w + c].clone() } else { "€".to_string() }).collect()).collect();
+                    text_array_checks(&m, &wp, h, w, "é".to_string(), "the padded String array from flat data", ck)
+                }
+                other => ck.that(false, || format!("from_flat fails on {given} String items for {h}x{w}: {other:?}")),
+            }
+        }
+    }
+}
 
 /// Observers beyond the printed observation vector, all judged against the plain grid: iterator protocol
 /// (size_hint, count, nth, last, `&mut` iteration), equality against nested vectors of other row lengths / other
 /// items in BOTH directions, the same array at other element types (f64, String, u8, i128: map, conversion, Display,
-/// max/min, indexing, equality), copying transpose, `as_scalar_unchecked`.
+/// max/min, indexing, equality), copying transpose, `as_scalar_unchecked`; text items with multi-byte characters
+/// (`non_ascii_checks`).
 fn side_checks(arr: &Arr2D<i64>, g: &OGrid, ck: &mut Check, heavy: bool) {
     let (h, w) = (g.h, g.w);
     // ---- the whole Clone protocol: `clone_from` into an existing array of every kind of shape (same item count in
@@ -1005,6 +1185,9 @@ fn side_checks(arr: &Arr2D<i64>, g: &OGrid, ck: &mut Check, heavy: bool) {
                 ck.that(matches!(r, Some(Ok(()))) && m.shape() == (1, h * w) && catch(|| m[0].to_vec()) == Some(fl), || "String array: reshape(1) is not the row-major flattening".into());
             }
         }
+    }
+    if ck.fails.is_empty() {
+        non_ascii_checks(arr, g, ck);
     }
     // u8 / i128 conversions of the whole array
     let c8 = catch(|| Arr2D::<u8>::try_from(arr));
@@ -1639,6 +1822,53 @@ fn display_family(rng: &mut Rng, thorough: bool, emit: &mut dyn FnMut(String)) {
     }
 }
 
+
+/// G. OBJECT HISTORY: arrays whose hidden buffer has SPARE CAPACITY (only the padding path of `from_flat` makes them:
+/// more than half of the items given, or fewer than four cells) undergo every operation of the alphabet in place,
+/// and every rearranging operation followed by the operations that rebuild or re-read the buffer.  (The random
+/// scripts meet such arrays by chance; `clone` requests alternate with `clone_from` into a larger array.)
+fn history_family(_rng: &mut Rng, thorough: bool, emit: &mut dyn FnMut(String)) {
+    let top = if thorough { 5 } else { 4 };
+    for h in 1..=top {
+        for w in 1..=top {
+            let n = h * w;
+            let d = labels(h, w);
+            for given in 0..n {
+                let spare = 2 * given > n || n < 4;
+                if !spare {
+                    continue;
+                }
+                let c = Ctor::Flat(d[..given].to_vec(), -3, h, w);
+                for op in alphabet(h, w) {
+                    emit(request(&c, &[op]));
+                }
+                if h <= 3 && w <= 3 || thorough {
+                    let second = [
+                        Op::TransposeMut,
+                        Op::Transpose,
+                        Op::Reshape(1),
+                        Op::Reshape(n),
+                        Op::Swap(0, h - 1),
+                        Op::Clone,
+                        Op::Map { code: 0, a: 1, b: 0 },
+                        Op::RowsMut { via: 0, code: 2, a: 0, b: 0 },
+                        Op::Convert(0),
+                        Op::Set(h - 1, w - 1, 77),
+                    ];
+                    for op1 in structural_alphabet(h, w) {
+                        if matches!(op1, Op::Swap(a, b) if a >= h || b >= h || a > b) {
+                            continue;
+                        }
+                        for op2 in &second {
+                            emit(request(&c, &[op1.clone(), op2.clone(), Op::TransposeMut]));
+                        }
+                    }
+                }
+            }
+        }
+    }
+}
+
 /// nested vectors with more and longer rows than the exhaustive tuples: one or two rows deviate, sometimes so that the
 /// total number of items is that of a rectangle
 fn ragged_family(rng: &mut Rng, thorough: bool, emit: &mut dyn FnMut(String)) {
@@ -1819,4 +2049,6 @@ fn generate_light(rng: &mut Rng, thorough: bool, emit: &mut dyn FnMut(String)) {
     //    7..65 are interleaved by `generate`)
     display_family(&mut rng, thorough, emit);
     ragged_family(&mut rng, thorough, emit);
+    // 5. arrays with spare capacity under every operation
+    history_family(&mut rng, thorough, emit);
 }
